@@ -333,9 +333,11 @@ func (fr *frame) join(base *State, normals []*State) []Outcome {
 	if len(live) == 1 {
 		return one(live[0])
 	}
-	if m := mergeMany(base, live); m != nil {
-		m.results = nil
-		return one(m)
+	if fr.fc.contract == nil || fr.fc.contract.Flags["paths"] != "split" {
+		if m := mergeMany(base, live); m != nil {
+			m.results = nil
+			return one(m)
+		}
 	}
 	var outs []Outcome
 	for _, n := range live {
@@ -767,6 +769,7 @@ func (fc *fctx) hintsAtReturn(st *State, fr *frame) {
 
 func (fc *fctx) ghostAssign(st *State, fr *frame, cl *Clause, extra map[string]*Value) {
 	env := fc.postEnv(st, fr)
+	env.fr = fr // ghost updates may mention the function's locals by name
 	for k, v := range extra {
 		if _, exists := env.vars[k]; !exists {
 			env.vars[k] = v
